@@ -64,6 +64,9 @@ def parseLine (line : String) : String × Fields :=
 
 def fld (f : Fields) (k : String) : Option String := (f.find? (·.1 = k)).map (·.2)
 
+/-- an address / name field: `-` is the empty string -/
+def afld (f : Fields) (k : String) : Option String := (fld f k).map (fun v => if v = "-" then "" else v)
+
 def optNat (s : String) : Option (Option Nat) := if s = "-" then some none else (parseNat s).map some
 
 def listOf (s : String) : List String := if s = "-" then [] else s.splitOn ","
@@ -129,6 +132,7 @@ def textOf (f : Fields) : Option (Option PricingText) := do
 inductive Parsed
   | op (o : Op)
   | invalid
+  | unknownCtx        -- keeper API called with an id of the wrong length: no such context can exist
   | genesis (cfg : Config) (params : Params) (height time : Int)
   | bad (msg : String)
 
@@ -147,24 +151,24 @@ def parseOp (name : String) (f : Fields) : Option Parsed :=
         modules := mods, modsvc := if ms = "-" then none else some ms }
       { maxTimeout := mt, mult := mult, minDep := md.getD 0, tax := tax, slash := sl,
         complaint := co, arbitration := ar } h t)
-  | "fund" => do pure (.op (.fund (← fld f "acct") (← parseNat (← fld f "amt"))))
-  | "xfer" => do pure (.op (.xfer (← fld f "from") (← fld f "to") (← parseNat (← fld f "amt"))))
-  | "define" => do pure (.op (.define (← fld f "name") (← fld f "author") ((← fld f "schema") = "ok")))
+  | "fund" => do pure (.op (.fund (← afld f "acct") (← parseNat (← fld f "amt"))))
+  | "xfer" => do pure (.op (.xfer (← afld f "from") (← afld f "to") (← parseNat (← fld f "amt"))))
+  | "define" => do pure (.op (.define (← afld f "name") (← afld f "author") ((← fld f "schema") = "ok")))
   | "bind" => do
-    pure (.op (.bind (← fld f "svc") (← fld f "prov") (← fld f "owner") (← optNat (← fld f "dep"))
+    pure (.op (.bind (← afld f "svc") (← afld f "prov") (← afld f "owner") (← optNat (← fld f "dep"))
       (← textOf f) (← parseNat (← fld f "qos"))))
   | "update" => do
-    pure (.op (.update (← fld f "svc") (← fld f "prov") (← fld f "owner") (← optNat (← fld f "dep"))
+    pure (.op (.update (← afld f "svc") (← afld f "prov") (← afld f "owner") (← optNat (← fld f "dep"))
       (← textOf f) (← parseNat (← fld f "qos"))))
-  | "setwd" => do pure (.op (.setwd (← fld f "owner") (← fld f "addr")))
-  | "disable" => do pure (.op (.disable (← fld f "svc") (← fld f "prov") (← fld f "owner")))
-  | "enable" => do pure (.op (.enable (← fld f "svc") (← fld f "prov") (← fld f "owner") (← optNat (← fld f "dep"))))
-  | "refund" => do pure (.op (.refund (← fld f "svc") (← fld f "prov") (← fld f "owner")))
+  | "setwd" => do pure (.op (.setwd (← afld f "owner") (← afld f "addr")))
+  | "disable" => do pure (.op (.disable (← afld f "svc") (← afld f "prov") (← afld f "owner")))
+  | "enable" => do pure (.op (.enable (← afld f "svc") (← afld f "prov") (← afld f "owner") (← optNat (← fld f "dep"))))
+  | "refund" => do pure (.op (.refund (← afld f "svc") (← afld f "prov") (← afld f "owner")))
   | "call" => do
     let tx ← fld f "tx"; let idx ← parseNat (← fld f "idx")
     let h ← natOfHex tx.toList
     if tx.length ≠ 64 then none
-    pure (.op (.call { hash := h, idx := idx } (← fld f "svc") (listOf (← fld f "provs")) (← fld f "cons")
+    pure (.op (.call { hash := h, idx := idx } (← afld f "svc") (listOf (← fld f "provs")) (← afld f "cons")
       (← optNat (← fld f "cap")) (← parseInt (← fld f "timeout")) (← boolOf (← fld f "super"))
       (← boolOf (← fld f "rep")) (← parseNat (← fld f "freq")) (← parseInt (← fld f "total"))
       ((← fld f "input") = "ok")))
@@ -172,40 +176,39 @@ def parseOp (name : String) (f : Fields) : Option Parsed :=
     let tx ← fld f "tx"; let idx ← parseNat (← fld f "idx")
     let h ← natOfHex tx.toList
     if tx.length ≠ 64 then none
-    pure (.op (.modcreate { hash := h, idx := idx } (← fld f "mod") (← fld f "svc") (listOf (← fld f "provs"))
-      (← fld f "cons") (← optNat (← fld f "cap")) (← parseInt (← fld f "timeout")) (← boolOf (← fld f "super"))
+    pure (.op (.modcreate { hash := h, idx := idx } (← afld f "mod") (← afld f "svc") (listOf (← fld f "provs"))
+      (← afld f "cons") (← optNat (← fld f "cap")) (← parseInt (← fld f "timeout")) (← boolOf (← fld f "super"))
       (← boolOf (← fld f "rep")) (← parseNat (← fld f "freq")) (← parseInt (← fld f "total"))
       ((← fld f "input") = "ok") ((← fld f "state") = "running") (← parseNat (← fld f "thr"))))
   | "respond" => do
-    let prov ← fld f "prov"; let code ← parseNat (← fld f "code"); let out ← outOf (← fld f "out")
+    let prov ← afld f "prov"; let code ← parseNat (← fld f "code"); let out ← outOf (← fld f "out")
     match reqIdOfHex (← fld f "req") with
     | some r => pure (.op (.respond r prov code out))
     | none => pure .invalid
   | "pause" | "start" | "kill" | "modpause" | "modstart" | "modkill" => do
-    let cons ← fld f "cons"
+    let cons ← afld f "cons"
     match ctxIdOfHex (← fld f "ctx") with
-    | none => pure .invalid
+    | none => pure (if name.startsWith "mod" then .unknownCtx else .invalid)
     | some c =>
       pure (.op (match name with
         | "pause" => .pause c cons | "start" => .start c cons | "kill" => .kill c cons
         | "modpause" => .modpause c cons | "modstart" => .modstart c cons | _ => .modkill c cons))
   | "updatectx" => do
-    let cons ← fld f "cons"
+    let cons ← afld f "cons"
     let provs := listOf (← fld f "provs"); let cap ← optNat (← fld f "cap")
     let timeout ← parseInt (← fld f "timeout"); let freq ← parseNat (← fld f "freq"); let total ← parseInt (← fld f "total")
     match ctxIdOfHex (← fld f "ctx") with
     | none => pure .invalid
     | some c => pure (.op (.updatectx c cons provs cap timeout freq total))
   | "modupdate" => do
-    let cons ← fld f "cons"
+    let cons ← afld f "cons"
     let provs := listOf (← fld f "provs"); let cap ← optNat (← fld f "cap"); let thr ← parseNat (← fld f "thr")
     let timeout ← parseInt (← fld f "timeout"); let freq ← parseNat (← fld f "freq"); let total ← parseInt (← fld f "total")
     match ctxIdOfHex (← fld f "ctx") with
-    | none => pure .invalid
+    | none => pure .unknownCtx
     | some c => pure (.op (.modupdate c cons provs thr cap timeout freq total))
   | "withdraw" => do
-    let p ← fld f "prov"
-    pure (.op (.withdraw (← fld f "owner") (if p = "-" then "" else p)))
+    pure (.op (.withdraw (← afld f "owner") (← afld f "prov")))
   | "endblock" => do pure (.op (.endblock (← parseInt (← fld f "dt"))))
   | _ => none
 
@@ -265,7 +268,7 @@ def stateLines (s : State) : List String :=
   ++ s.withdraw.map (fun p => s!"WD {p.1} {p.2}")
   ++ s.ctxs.map (fun p =>
       let x := p.2
-      s!"CX {hexOfCtxId p.1} {x.svc} {dash (",".intercalate x.provs)} {x.cons} {feeStr x.cap} {x.timeout} {boolStr x.super} {boolStr x.rep} {x.freq} {x.total} {x.batch} {x.reqN} {x.respN} {x.bthr} {batchStateStr x.bstate} {ctxStateStr x.state} {x.thr} {dash x.mod}")
+      s!"CX {hexOfCtxId p.1} {x.svc} {dash (",".intercalate x.provs)} {x.cons} {x.cap} {x.timeout} {boolStr x.super} {boolStr x.rep} {x.freq} {x.total} {x.batch} {x.reqN} {x.respN} {x.bthr} {batchStateStr x.bstate} {ctxStateStr x.state} {x.thr} {dash x.mod}")
   ++ s.expQ.map (fun p => s!"XQ {p.1} {hexOfCtxId p.2}")
   ++ s.newQ.map (fun p => s!"NQ {p.1} {hexOfCtxId p.2}")
   ++ s.expH.map (fun p => s!"XH {hexOfCtxId p.1} {p.2}")
